@@ -372,6 +372,64 @@ def qual(fs, inst, name):
     return f"{fs['name']}:{inst}.{name}" if inst is not None else f"{fs['name']}.{name}"
 
 
+PDF_NAMES = ['topmostSubform[0].Page1[0].f1_{n:02d}[0]', 'topmostSubform[0].Page2[0].Table[0].Row{n}[0].c2_{n}[0]',
+             'form1[0].Name(first)[0].f{n}', 'y\\d400[0].p1[0].f{n}[0]']
+
+
+def add_pdf(world, rng, tight=False):
+    """give the 'form' kind forms PDF mappings, a filing rule, and a jurisdiction/sequence for ordering"""
+    from .synth import lines_of
+    n = 0
+    for fs in world['forms']:
+        fs['seq'] = rng.randrange(6)
+        if fs['kind'] != 'form':
+            continue
+        if rng.chance(0.12):
+            fs['files'] = 'never'         # a worksheet
+            continue
+        maps = []
+        for l in fs['required'] + fs['optional']:
+            if not rng.chance(0.75):
+                continue
+            n += 1
+            pn = rng.weighted([(PDF_NAMES[0], 8), (PDF_NAMES[1], 3), (PDF_NAMES[2], 1), (PDF_NAMES[3], 1)]).format(n=n)
+            t = l['type']
+            if t == 'bool':
+                m = {'pdf_name': pn, 'line': l['name'], 'kind': 'button', 'true_value': rng.pick(['1', '2', 'Yes'])}
+                maps.append(m)
+                if rng.chance(0.3):
+                    n += 1
+                    maps.append(dict(m, pdf_name=pn + '.no', negate=True, true_value='2'))
+                continue
+            if t == 'enum' and rng.chance(0.6):
+                ch = list(ENUMS[l['enum']]) + ['']
+                if tight and rng.chance(0.4):
+                    ch = ch[1:]
+                maps.append({'pdf_name': pn, 'line': l['name'], 'kind': 'choice', 'choices': ch})
+                continue
+            m = {'pdf_name': pn, 'line': l['name'], 'kind': 'text'}
+            if rng.chance(0.5 if tight else 0.25):
+                m['max_length'] = rng.pick([3, 5, 8, 9, 11, 17] if tight else [9, 11, 17, 40])
+            maps.append(m)
+        others = [f for f in world['forms'] if f is not fs and not f['multi'] and f['kind'] == 'form']
+        if others and rng.chance(0.3):
+            o = rng.pick(others)
+            ls = o['required']
+            if ls:
+                n += 1
+                maps.append({'pdf_name': PDF_NAMES[0].format(n=n), 'line': f"{o['name']}.{rng.pick(ls)['name']}", 'kind': 'text'})
+        if not maps:
+            fs['files'] = 'never'
+            continue
+        fs['pdf'] = maps
+        bools = [l for l in fs['required'] if l['type'] == 'bool']
+        if bools and rng.chance(0.3):
+            fs['files'] = {'line': rng.pick(bools)['name']}
+        else:
+            fs['files'] = 'always'
+    return world
+
+
 def gen_case(seed, force_faults=None, clean=None):
     rng = core.Rng(seed)
     r_f = rng.sub('faults')
